@@ -229,7 +229,121 @@ def lifecycle_check(prop, tier):
     return run.finish()
 
 
+# =============================================================== placement family (C01, C10 stub, C13 bytes)
+
+def placement_scenarios(tier):
+    rnd = vlib.rnd("placement")
+    M31 = 1 << 31
+    scen = []
+
+    def add(**kw):
+        kw["id"] = len(scen) + 1
+        scen.append(kw)
+
+    bases = [0x10000000, 0x1000, 0x10000, 0x4000000, 0x200000000, 0x7e0000000000, 0x100000000000]
+    offs = [0, 1, 2048, 4084, 4090, 4091, 4092, 4093, 4094, 4095]
+    deltas = [1, -1, 2, 32767, -32767, 32768, -32768, 100, -4000]
+    disps = [M31 + k for k in range(-6, 7)] + [-M31 + k for k in range(-6, 7)] + \
+            [4096, -8192, 1 << 20, -(1 << 20), 1 << 33, -(1 << 33), 1 << 40, 1 << 46]
+    # boundary lattice of the rel32 test, at a comfortable base, every delta sign
+    for d in disps:
+        add(flavour="raw", func_page=0x200000000, off=64, tramp_delta_pages=1, disp=d)
+    for d in [M31 - 1, M31, -M31, -M31 - 1]:
+        add(flavour="unchecked", func_page=0x200000000, off=128, tramp_delta_pages=-1, disp=d)
+    # page offsets (straddling entries) x a few deltas
+    for off in offs:
+        for dl in ([1, -32767] if tier == "quick" else deltas):
+            add(flavour="raw", func_page=0x10000000, off=off, tramp_delta_pages=dl, disp=1 << 20)
+    # trampoline positions across the window, including both extremes
+    for dl in deltas:
+        for off in (0, 64):
+            add(flavour="raw", func_page=0x10000000, off=off, tramp_delta_pages=dl, disp=-(1 << 20))
+    # low and high function addresses (window clipped at zero / near the top of user space)
+    for b in bases:
+        for dl in (1, 5, -1):
+            add(flavour="raw", func_page=b, off=32, tramp_delta_pages=dl, disp=1 << 20)
+            add(flavour="bool", boolv=rnd.choice([0, 1]), func_page=b, off=48, tramp_delta_pages=dl, disp=0)
+    # kernel-chosen trampoline (no dictated page)
+    for b in bases[:4]:
+        add(flavour="raw", func_page=b, off=16, tramp_delta_pages=3, disp=1 << 21, dictate=False)
+    # Rust-level fakes (closure, fake!, func!): arena positioned around the harness text
+    for fl in ("closure", "fake", "func"):
+        for d in (M31, -M31, M31 - 8192, -M31 + 8192, 1 << 24, -(1 << 24), 1 << 36):
+            add(flavour=fl, off=rnd.choice([0, 16, 4091, 2048]), tramp_delta_pages=rnd.choice([1, -1, 7]), disp=d)
+    # forced boolean, both values, straddling and not
+    for v in (0, 1):
+        for off in (0, 4090, 4093):
+            add(flavour="bool", boolv=v, func_page=0x10000000, off=off, tramp_delta_pages=2, disp=0)
+    n_rand = 60 if tier == "quick" else 3000
+    for _ in range(n_rand):
+        fl = rnd.choice(["raw", "raw", "unchecked", "bool"])
+        d = rnd.choice([M31, -M31, 0]) + rnd.randrange(-(1 << 12), 1 << 12) if rnd.random() < 0.5 else rnd.randrange(-(1 << 45), 1 << 45)
+        if abs(d) < 8192:
+            d += 16384
+        add(flavour=fl, boolv=rnd.choice([0, 1]), func_page=rnd.choice(bases) + 4096 * rnd.randrange(0, 64),
+            off=rnd.choice(offs + [rnd.randrange(0, 4096)]), tramp_delta_pages=rnd.choice(deltas + [rnd.randrange(-32768, 32769)]),
+            disp=d)
+    return scen
+
+
+def placement_key(prop, sc, evs):
+    off = sc.get("off", 0)
+    straddle = off + 5 > 4096
+    inst = next((e for e in evs if e["ev"] == "Installed"), None)
+    crashed = any(e["ev"] == "ChildExit" and e["signal"] != 0 for e in evs)
+    if crashed and inst is None:
+        return "%s install-crash page_off=%s straddle=%s" % (prop, off if straddle else "<4092", straddle)
+    return "%s flavour=%s page_off=%s delta=%s disp=%s" % (prop, sc.get("flavour"), off, sc.get("tramp_delta_pages"), sc.get("disp"))
+
+
+def placement_check(prop, tier):
+    run = Run(prop, tier)
+    run.rule = ("placements = lattice over (function page, offset in page incl. page-straddling entries, dictated trampoline "
+                "page across the +/-128 MiB window, fake displacement around +/-2^31 and far) x flavours + seeded random; each is a "
+                "real installation in a child process (arena stubs, interposed mmap policy); TLC executes the recorded entry/"
+                "trampoline bytes on X64.tla and compares with the CPU's answer; non-trivial = not skipped for occupancy")
+    run.assumptions = ["X64.tla transcribes the ~12 instruction forms involved (Intel SDM)", "MAP_FIXED_NOREPLACE honoured by the kernel"]
+    # design level: scaled geometry + encoder arithmetic
+    r = tlc.check("MC_Geom", "MC_Geom_q" if tier == "quick" else "MC_Geom_t", workers=TLC_WORKERS, timeout=3000)
+    run.add_model(r)
+    if r["violation"]:
+        run.design_violation(r)
+    vlib.build_harness()
+    scen = placement_scenarios(tier)
+    groups, order, _ = vlib.run_harness("placement", scen, "placement_" + prop, timeout=3000)
+    cfgp = tlc.make_cfg("Trace_Patch", {"Props": '{"%s", "ALL"}' % prop}, "Trace_Patch_" + prop)
+    live = []
+    for sc in scen:
+        evs = groups.get(sc["id"], [])
+        if any(e["ev"] == "Note" and e.get("what") == "skipped" for e in evs):
+            run.evaluations += 1
+            continue
+        live.append(sc)
+        run.note_case(json.dumps({k: sc[k] for k in sc if k != "id"}, sort_keys=True))
+    tv = tlc.validate_traces("Trace_Patch", cfgp, [(sc["id"], groups.get(sc["id"], [])) for sc in live], WORK,
+                             "trace_" + prop, timeout=3000)
+    run.traces += len(tv["accepted"])
+    run.states += tv["states"]
+    run.transitions += tv["transitions"]
+    unknown = sum(1 for l in tv["raw"]["prints"] if l.startswith('<<"UNKNOWN"'))
+    run.extra["placements"] = {"generated": len(scen), "executed": len(live), "accepted": len(tv["accepted"]),
+                               "unknown_instruction_bytes": unknown}
+    byid = {sc["id"]: sc for sc in scen}
+    for sid in tv["ids"]:
+        if sid not in tv["accepted"]:
+            evs = groups.get(sid, [])
+            reached, total = tv["progress"][sid]
+            run.violation(placement_key(prop, byid[sid], evs),
+                          {"scenario": byid[sid], "trace_rejected_at": reached,
+                           "first_unmatched_event": evs[reached] if reached < len(evs) else None,
+                           "events": [e for e in evs if e["ev"] in ("Place", "Installed", "Called", "Dropped", "ChildExit", "Neighbour")]})
+    for sc in live[:3]:
+        run.sample({"placement": sc, "installed": next((e for e in groups.get(sc["id"], []) if e["ev"] == "Installed"), None)})
+    return run.finish()
+
+
 CHECKS = {
+    "C01": placement_check,
     "C02": lifecycle_check,
     "C03": lifecycle_check,
     "C12": lifecycle_check,
